@@ -21,8 +21,23 @@
     ("not after the statement's last line") needs a non-blank, non-comment
     character inside the statement: it is decided per case by the judge
     (Judge/JF.v holds17) and fails exactly for the class of
-    known_findings.json (a `--` inside a string literal taken for a comment). *)
-From Verif Require Import Model.Compile Judge.JF Proofs.LineFacts.
+    known_findings.json (a `--` inside a string literal taken for a comment).
+
+    "All offending statements of all files are reported, one line each, in file
+    then source order" - over Model/CompileFiles.v (the file loop of parseQueries,
+    whose only state across files is the set of query names seen):
+    - C17_files_order: every statement of every file contributes exactly one entry
+      (diagnostic, query, or skipped), file by file in the order of the file list,
+      for any number of files and statements;
+    - C17_files_partial: when no query name of a file is used by an earlier file
+      (otherwise the later one is a "duplicate query name" diagnostic), the run
+      reports, file by file, exactly the diagnostics each file reports when it is
+      the only file of the package - the equation checks/c17.py tests on the real
+      compiler with 2-3 query files, each file's own report being tied to the
+      model by the per-file correspondence;
+    - C17_file_source_order: the diagnostics of one file are the Err entries of
+      its statements in source order. *)
+From Verif Require Import Model.Compile Model.CompileFiles Judge.JQ Judge.JF Proofs.LineFacts Proofs.CompileFilesFacts.
 Open Scope string_scope.
 Open Scope list_scope.
 
@@ -69,3 +84,65 @@ Example C17_non_vacuous :
   let src := "-- " +++ String (ascii_of_nat 195) (String (ascii_of_nat 169) "") +++ " comment" +++ String nl "SELECT 1;" in
   line_number src 14 = Ok (2, 1)%Z /\ count_nl (take_before 14 (runes src)) = 1%Z /\ last_is_nl (runes src) = false.
 Proof. vm_compute. repeat split; reflexivity. Qed.
+
+(** ** several query files *)
+Theorem C17_files_order : forall e p files seen,
+  map fst (parse_files e p files seen)
+  = flat_map (fun f : qfile => let '(name, _, stmts) := f in repeat name (List.length stmts)) files.
+Proof. exact parse_files_order. Qed.
+Print Assumptions C17_files_order.
+
+Theorem C17_files_partial : forall e p files,
+  names_fresh e p files [] ->
+  diagnostics (parse_files e p files []) = flat_map (fun f => diagnostics (alone e p f)) files.
+Proof. exact diagnostics_file_by_file. Qed.
+Print Assumptions C17_files_partial.
+
+Theorem C17_file_source_order : forall e p name src stmts,
+  diagnostics (alone e p (name, src, stmts))
+  = flat_map (fun r => match r with Err m => [(name, m)] | _ => [] end) (parse_file e src p stmts []).
+Proof. exact diagnostics_alone_subseq. Qed.
+Print Assumptions C17_file_source_order.
+
+(** Concrete statements (as the PostgreSQL parser returns them) over a one-table catalog:
+    file a.sql holds GetA (fine) and GetB (unknown column), file b.sql holds GetA again -
+    or, with fresh names, GetC (unknown column). *)
+Definition c17_cat : catalog :=
+  mkCat "public" [mkSch "public" [mkTab "t" [mkCol "id" (mkQ "pg_catalog" "int4") true false ""] ""] [] ""; mkSch "pg_catalog" [] [] ""].
+Definition c17_sel (c : string) : node :=
+  Node "SelectStmt" [] []
+    [("TargetList", NList [Node "ResTarget" [] [] [("Val", Node "ColumnRef" [] [] [("Fields", NList [Node "String" [("Str", c)] [] []])])]]);
+     ("FromClause", NList [Node "RangeVar" [("Relname", "t")] [] []])].
+Definition c17_stmt (name col : string) : string := "-- name: " +++ name +++ " :many" +++ String nl ("SELECT " +++ col +++ " FROM t;").
+Definition c17_raw (loc : Z) (text : string) (col : string) : node :=
+  Node "RawStmt" [] [("StmtLocation", loc); ("StmtLen", Z.of_nat (String.length text) - 1)%Z] [("Stmt", c17_sel col)].
+Definition c17_file (name : string) (stmts : list (string * string)) : qfile :=
+  let texts := map (fun nc => c17_stmt (fst nc) (snd nc)) stmts in
+  let src := String.concat (String nl "") texts in
+  (name, src,
+   (fix go (l : list (string * string)) (loc : Z) : list node :=
+      match l with
+      | [] => []
+      | (n, c) :: r => c17_raw loc (c17_stmt n c) c :: go r (loc + Z.of_nat (String.length (c17_stmt n c)) + 1)%Z
+      end) stmts 0%Z).
+Definition c17_env : env := mk_env EPostgres c17_cat [].
+
+(** the hypotheses of C17_files_partial are met and the conclusion is not the empty list *)
+Example C17_files_non_vacuous :
+  let files := [c17_file "a.sql" [("GetA", "id"); ("GetB", "nope")]; c17_file "b.sql" [("GetC", "bogus"); ("GetD", "id")]] in
+  names_fresh c17_env false files []
+  /\ diagnostics (parse_files c17_env false files [])
+     = [("a.sql", "column ""nope"" does not exist"); ("b.sql", "column ""bogus"" does not exist")].
+Proof.
+  cbv zeta. split; [|vm_compute; reflexivity].
+  cbn [names_fresh]. repeat split; try (intros n Hn; vm_compute in Hn; vm_compute; intuition (subst; reflexivity)).
+Qed.
+
+(** the freshness hypothesis is needed: the same query name in two files makes the
+    second file report a diagnostic it does not report alone *)
+Theorem C17_files_refuted_shared_name :
+  let files := [c17_file "a.sql" [("GetA", "id")]; c17_file "b.sql" [("GetA", "id")]] in
+  diagnostics (parse_files c17_env false files []) = [("b.sql", "duplicate query name: GetA")]
+  /\ flat_map (fun f => diagnostics (alone c17_env false f)) files = [].
+Proof. vm_compute. split; reflexivity. Qed.
+Print Assumptions C17_files_refuted_shared_name.
